@@ -43,6 +43,10 @@ Definition bind {A B} (o : outcome A) (f : A -> outcome B) : outcome B :=
   match o with Ok a => f a | Err e => Err e | Panic => Panic | Hang => Hang end.
 Notation "x <- o ;; k" := (bind o (fun x => k)) (at level 61, o at next level, right associativity).
 
+(* turn an error into a value (the Go code inspects err and goes on) *)
+Definition catch {A} (o : outcome A) : outcome (option A) :=
+  match o with Ok a => Ok (Some a) | Err _ => Ok None | Panic => Panic | Hang => Hang end.
+
 Definition safe {A} (o : outcome A) : Prop := o <> Panic /\ o <> Hang.
 
 (* ---- text helpers (canonical printers print list-of-char-codes) ---- *)
